@@ -234,6 +234,7 @@ def scenario(run, rng, origin, chain, final_mode, pv, hook_log):
         # owner-tracking proxy around a real RLock (evidence for a deadlock)
         conn._write_lock = _baton.LockProxy(_baton.NullScheduler())
         effective = []
+        registered = {}
         for h in chain:
             def make(h):
                 def fn(exc, exc_info):
@@ -263,6 +264,16 @@ def scenario(run, rng, origin, chain, final_mode, pv, hook_log):
                         # inside this handler, which is the handler's doing)
                         conn.disconnect(immediate=queue_before_fault)
                 return fn
+            if 'dup_of' in h:
+                fn, types_arg = registered[h['dup_of']]
+                kw_e = {'early': True} if h['early'] else {}
+                conn.register_exception_handler(fn, *types_arg, **kw_e)
+                run.count('handlers_registered_twice')
+                if h['early']:
+                    effective.insert(0, h)
+                else:
+                    effective.append(h)
+                continue
             fn = make(h)
             # (the keyword is left out when it has its default value)
             kw_e = {'early': h['early']} if h['early'] or \
@@ -281,6 +292,7 @@ def scenario(run, rng, origin, chain, final_mode, pv, hook_log):
                     types_arg = (types_arg[0], tuple(types_arg[1:]))
                 if spelling != 'flat':
                     run.count('handler_filters_given_as_tuples')
+            registered[h['id']] = (fn, types_arg)
             if rng.random() < 0.5:
                 conn.register_exception_handler(fn, *types_arg, **kw_e)
             else:
@@ -672,7 +684,10 @@ def user_reconnect_during_handler_case(run, rng, pv, idx):
 def gen_chain(rng):
     pool = [(E0,), (E1,), (E2,), (F0,), (Exception,), (), (E2, F0),
             (KeyError, ValueError), (LookupError,), (OSError,),
-            (ValueError,), (E1, KeyError)]
+            (ValueError,), (E1, KeyError),
+            # filters that can match nothing the thread routes
+            (KeyboardInterrupt,), (SystemExit, GeneratorExit),
+            (BaseException,), (KeyboardInterrupt, E1)]
     try:
         from minecraft.exceptions import ConnectionFailure, LoginDisconnect
         pool += [(ConnectionFailure,), (LoginDisconnect, E0)]
@@ -693,6 +708,16 @@ def gen_chain(rng):
                       'early': rng.random() < 0.3, 'behaviour': beh,
                       'new_type': rng.choice((E0, E1, E2, F0, KeyError))
                       if beh in ('raise-new', 'reconnect-raise') else None})
+    # the same callable registered a second time with the same filter is a
+    # second clause of the chain like any other (it sees what its first
+    # occurrence raised; an early re-registration also stands at the front)
+    plain = [h for h in chain if h['behaviour'] not in ('reconnect',
+                                                        'reconnect-raise')]
+    if plain and rng.random() < 0.3:
+        orig = rng.choice(plain)
+        chain.insert(rng.randrange(chain.index(orig) + 1, len(chain) + 1),
+                     dict(orig, early=rng.random() < 0.4,
+                          dup_of=orig['id']))
     return chain
 
 
